@@ -38,7 +38,7 @@ def _prof(name: str) -> Prof:
 
         PROFS.update(
             {
-                'ax': Prof(symbol=2, svar=False, mu=False, app=False, exists=True, metavars=1),
+                'ax': Prof(symbol=2, svar=False, mu=False, app=False, exists=True, metavars=1, mv_cfgs=((0, 0, 0, 0), (0, 0, 0, 0, 1))),  # incl. a metavariable whose only constraint list is app_ctx_holes
                 'ax_collide': Prof(symbol=1, sym_names=('x0',), svar=False, mu=False, app=False, exists=False, metavars=1, mv_cfgs=((0, 0, 0, 0), (1, 0, 0, 0))),
                 'ax_big': Prof(symbol=1, svar=True, mu=True, app=False, exists=True, metavars=0, id_hi=1000),
                 'ax_ri': Prof(symbol=1, svar=False, mu=False, app=False, exists=False, metavars=2, raw_inst=True),
